@@ -20,6 +20,9 @@ ASSUMPTIONS = [
     "a host may issue CLEAR_FEATURE(ENDPOINT_HALT) for any endpoint address at any time between transfers; it takes "
     "effect when the host ACKs the status ZLP and resets the data toggle of the named address on both sides, of no "
     "other address (USB 2.0 9.4.5); only complete transfers are generated (abandoned ones are C14's subject)",
+    "a host that did not acknowledge a bulk IN packet may service other endpoints of the device (complete control "
+    "transfers, other INs/OUTs, SOFs) before it retries that IN; the retry must carry the same packet and data PID "
+    "(USB 2.0 8.6.4)",
 ]
 
 GD = lambda t, i, l, lang=0: dict(k="ctrl", req=[0x80, 6, (t << 8) | i, lang, l])
@@ -62,6 +65,24 @@ for _n, _a in CLEAR_HALT.items():
     STEPS["clear_halt_" + _n] = [dict(k="ctrl", req=[0x02, 1, 0, _a, 0])]
 for _n in ("in4", "out4"):
     STEPS["clear_halt_" + _n + "_lost_ack"] = [dict(k="ctrl", req=[0x02, 1, 0, CLEAR_HALT[_n], 0], noack=1)]
+# A transmit packet whose ACK is lost (the host received it damaged, or its ACK was lost: USB 2.0 8.6.4), with the
+# host doing something ELSE before it retries the IN: a control transfer on endpoint 0 (with or without host ACKs in
+# it), a poll of the notification endpoint, a bulk OUT, an SOF.  The retried IN must deliver the same packet with the
+# same data PID, and the rest of the transfer must follow in order.  `pre` = number of packets fetched normally first.
+LOST_ACK_INTERLEAVERS = ["set_line_coding", "set_line_coding_v", "set_line_coding_lost_ack", "getstatus", "getcfg",
+                         "setcfg", "dev18", "cfgfull", "str2", "qualifier", "vendor_out", "send_break", "get_line_coding",
+                         "clear_halt_out4", "clear_halt_in3", "clear_halt_in5", "notify", "out13", "sof"]
+LOST_ACK_SHAPES = {"1": (1, 0), "20": (20, 0), "64": (64, 0), "100": (100, 0), "100b": (100, 1), "150": (150, 1)}
+LOST_ACK_STEPS = []
+for _s, (_n, _pre) in LOST_ACK_SHAPES.items():
+    for _x in LOST_ACK_INTERLEAVERS:
+        _name = f"txlost{_s}_then_{_x}"
+        # the idle gives the producer time to hand the (first) packet over (sparse in_valid patterns), so that the
+        # un-acknowledged IN really carries data; if it is NAKed instead the step degenerates to an ordinary transfer
+        STEPS[_name] = ([dict(k="feed", ep=4, n=_n, last=1), dict(k="idle", n=4 * _n + 12)]
+                        + [dict(k="in", ep=4, ack=1)] * _pre + [dict(k="in", ep=4, ack=0)]
+                        + [dict(_i) for _i in STEPS[_x]] + [dict(k="drain")])
+        LOST_ACK_STEPS.append(_name)
 NAMES = sorted(STEPS)
 ENUMERATION = ["dev8", "setaddr", "dev18", "qualifier", "cfg9", "cfgfull", "str0", "str2", "str1", "str3", "setcfg", "getcfg"]
 STALLED = {"get_line_coding", "set_control_line_state", "send_break", "send_encapsulated", "class_endpoint_recipient",
@@ -77,6 +98,7 @@ CATEGORIES = [
     # clear-halts: the two data endpoint addresses 3 : 2 : everything else 1 each (about half name 0x84 / 0x04)
     ["clear_halt_in4"] * 4 + ["clear_halt_out4"] * 3 + ["clear_halt_in4_lost_ack", "clear_halt_out4_lost_ack"]
     + ["clear_halt_" + n for n in sorted(CLEAR_HALT) if n not in ("in4", "out4")],
+    LOST_ACK_STEPS,
 ]
 
 
@@ -94,7 +116,10 @@ class Serial(Sub):
             "lost status ACK) naming the data-IN address 0x84, the data-OUT address 0x04 (same number, other "
             "direction), the notification endpoint and absent addresses (0x03, 4's one-bit neighbours 5/12/0, 1) at "
             "any point between the data transfers -- the host resets its toggle for the named address only and keeps "
-            "all others; oracle = independent device model specialised with "
+            "all others; and tx transfers of 1..150 bytes whose (first or second) packet is NOT acknowledged by the "
+            "host, which then does something else before retrying the IN -- a complete control transfer on endpoint 0 "
+            "(SET_LINE_CODING, standard GETs/SETs, STALLed class/vendor requests, clear-halts), a notification poll, a "
+            "bulk OUT or an SOF -- and then fetches the rest until the endpoint NAKs; oracle = independent device model specialised with "
             "independently built ACM descriptors: descriptor bytes, ZLP/ACK/STALL per stage, data PIDs, tx bytes in "
             "order exactly once, rx stream == acknowledged in-sequence OUT payloads; non-trivial = enumeration "
             "completed AND SET_LINE_CODING accepted AND some other class/vendor request STALLed AND bytes moved in "
@@ -131,7 +156,16 @@ class Serial(Sub):
         if tx.acked != len(tx.pkts) and not tx.cur:
             return fail(f"tx stream: {len(tx.pkts)} packets were accepted from the stream but only {tx.acked} reached "
                         f"the host although it polled until the endpoint NAKed", signature="tx-data-not-delivered")
-        labels = set(n for n in names if n in STALLED or n.startswith(("set_line", "out", "tx")))
+        labels = set(n for n in names if n in STALLED or (n.startswith(("set_line", "out", "tx")) and "_then_" not in n))
+        # un-acknowledged tx packets followed by traffic elsewhere before the retry (what actually happened on the bus)
+        for k, t in enumerate(run.txns[:-1]):
+            if t["kind"] == "in" and t["ep"] == 4 and t["resp"][0] == "data" and not t["ack"]:
+                nxt = run.txns[k + 1]
+                if nxt["kind"] == "sof" or nxt["ep"] != 4 or nxt["kind"] != "in":
+                    rest = run.txns[k + 1:]
+                    stop = next((j for j, u in enumerate(rest) if u["kind"] == "in" and u["ep"] == 4), len(rest))
+                    acked = any(u.get("ack") for u in rest[:stop])
+                    labels.add("tx-lost-ack-then-other-traffic" + ("-with-host-ACK" if acked else ""))
         # clear-halts that completed, by target and by the toggle state they met (the model's own bookkeeping)
         halts = [d for e, d in run.model.events if e == "clear_halt"]
         for k, (key, snap) in enumerate(halts):
